@@ -20,6 +20,8 @@ enum SinkMode {
     Chooser(Ch),
     /// accept at most `chunk` bytes per call; fail once `fail_at` bytes were emitted
     Fixed { chunk: usize, fail_at: Option<usize>, short_final: bool },
+    /// like a `&mut [u8]` of `cap` bytes: accepts what fits, then answers Ok(0) for ever
+    Full { cap: usize },
 }
 
 struct Sink {
@@ -45,6 +47,19 @@ impl Write for Sink {
                     4 => return Ok(0),
                     _ => return Err(std::io::Error::new(std::io::ErrorKind::Other, "scripted failure")),
                 };
+                self.out.borrow_mut().extend_from_slice(&buf[..n]);
+                Ok(n)
+            }
+            SinkMode::Full { cap } => {
+                let have = self.out.borrow().len();
+                let n = buf.len().min(cap - have.min(*cap));
+                if n == 0 {
+                    // a writer that keeps offering data to a sink that takes nothing never terminates
+                    if *self.calls.borrow() > cap + 10_000 {
+                        panic!("livelock: the writer keeps calling a sink that has answered Ok(0) {} times", *self.calls.borrow() - *cap);
+                    }
+                    return Ok(0);
+                }
                 self.out.borrow_mut().extend_from_slice(&buf[..n]);
                 Ok(n)
             }
@@ -259,13 +274,23 @@ pub fn run(ctx: &Ctx) -> i32 {
                     }
                     write_outcome("write-chunks", s, meta_only, r, &out, off as u64, &|| json!({"subject": s.name, "metadata_only": meta_only, "sink": format!("fails at offset {} (chunk {}, short final write {})", off, chunk, short_final)}), &mut a);
                 }
+                // a sink of fixed capacity (like `&mut [u8]`): accepts what fits, then answers Ok(0) for ever
+                if off < len {
+                    a.evals += 1;
+                    a.nontrivial += 1;
+                    let (r, out, _) = do_write(s, meta_only, SinkMode::Full { cap: off });
+                    if matches!(r, Ok(Ok(()))) {
+                        a.viol(Violation::new("write-chunks", format!("a sink with room for {} of {} bytes answered Ok(0) but write returned Ok", off, len), json!({"subject": s.name, "capacity": off})).sig("clause", "failure-swallowed").rank(off as u64));
+                    }
+                    write_outcome("write-chunks", s, meta_only, r, &out, off as u64, &|| json!({"subject": s.name, "metadata_only": meta_only, "sink": format!("has room for {} bytes, then answers Ok(0) to every call", off)}), &mut a);
+                }
             }
         }
     }
     reports.push(SubReport::new(
         "write-chunks",
         "C",
-        &format!("{} packages (built minimal, built signed with a file, hand-encoded with signature paddings) × Package::write and PackageMetadata::write × sinks accepting at most k bytes per call for every k in 1..=64 and unlimited × sinks failing at EVERY offset 0..=len (as refused whole buffer, as short final write, with 7-byte chunks). Oracle: Ok ⇒ emitted = canonical bytes; Err ⇒ emitted is a prefix; never Ok when the sink failed; no panic", subs_.len()),
+        &format!("{} packages (built minimal, built signed with a file, hand-encoded with signature paddings) × Package::write and PackageMetadata::write × sinks accepting at most k bytes per call for every k in 1..=64 and unlimited × sinks failing at EVERY offset 0..=len (as refused whole buffer, as short final write, with 7-byte chunks) × sinks of EVERY capacity 0..len that answer Ok(0) once full (a writer that keeps calling such a sink is reported as a livelock after 10 000 calls). Oracle: Ok ⇒ emitted = canonical bytes; Err ⇒ emitted is a prefix; never Ok when the sink failed; no panic", subs_.len()),
         a,
     ));
 
